@@ -13,9 +13,29 @@ type csvCfg struct {
 	eol    []rune
 }
 
+// c09SymDelim: a delimiter that is either one of six usual ASCII delimiters or ANY
+// character of U+0100..U+FFFE (symbolic).
+func c09SymDelim(tag string) rune {
+	if vChoice(tag+".plane", 2) == 0 {
+		return []rune{',', ';', '\t', '|', '"', '\''}[vChoice(tag+".ascii", 6)]
+	}
+	r := vRune(tag)
+	vAssume(vAnd(r >= 0x100, r <= 0xFFFE))
+	return r
+}
+
 func c09Config() csvCfg {
 	si, qi := 0, 0
-	if cfg := vParam("CFG"); cfg >= 0 {
+	if cfg := vParam("CFG"); cfg == -2 {
+		// one symbolic separator and one symbolic quote symbol (any valid pair)
+		sep, quote := c09SymDelim("sep"), c09SymDelim("quote")
+		vAssume(sep != quote)
+		// reachable with SetFieldSeparators then SetQuoteSymbols from the defaults (',' and '"'):
+		// each setter validates against the other's current value
+		vAssume(sep != '"')
+		eol := [][]rune{{'\n'}, {'\r'}, {'\r', '\n'}, {'\n', '\r'}}[vChoice("cfg.eol", 4)]
+		return csvCfg{[]rune{sep}, []rune{quote}, eol}
+	} else if cfg >= 0 {
 		si, qi = cfg%3, (cfg/3)%3 // a fixed separator / quote configuration (all four row endings)
 	} else {
 		si, qi = vChoice("cfg.seps", 3), vChoice("cfg.quotes", 3)
